@@ -425,7 +425,7 @@ def general_program(draw, cfg, max_steps=30, extra=(), disable=()):
             prev = b.stack[-1][-1] if b.stack[-1] else None
             if prev is not None and prev['t'] == 'label':
                 # the label right in front of the string (possibly on the same line) named inside the string
-                words = [prev['name'] + ':', prev['name'] + ': ' + prev['name'] + ':'] * 3 + words
+                words = [prev['name'] + ':', prev['name'] + ': ' + prev['name'] + ':'] * 3 + ['; not a comment', 'a;b'] * 2 + words
             text = ' '.join(d(st.lists(st.sampled_from(words), min_size=1, max_size=3)))[:20]
             q = d(st.sampled_from(['"', '"', "'"]))
             chars = [ord(c) for c in text if c != '\\']
